@@ -78,6 +78,10 @@ fn main() {
         "C03" => run_property(props::c03::C03, args),
         "C04" => run_property(props::c04::C04, args),
         "C05" => run_property(props::c05::C05, args),
+        "C06" => run_property(props::c06::C06, args),
+        "C07" => run_property(props::c07::C07, args),
+        "C15" => run_property(props::c15::C15, args),
+        "C20" => run_property(props::c20::C20, args),
         _ => {
             eprintln!("unknown property {}", id);
             2
